@@ -74,6 +74,9 @@ def _split_rows(raw, info):
         if "hint_probe" in r:
             info["hint_probe"] = r["hint_probe"]
         else:
+            for k in ("samples", "revoked", "sorts", "gaps"):
+                if r.get(k) is None:       # a Go nil slice (e.g. a schedule aborted at once)
+                    r[k] = []
             rows.append(cc.expand_row(r))
     return rows
 
